@@ -143,6 +143,7 @@ def run(tier, seed, model_ok, spec_ok, replay=None):
                     if kc.cls == "KeyDataType":
                         kc.args = [g.r.choice([str, int])]
                     pa.parts.append(MapT(key=cnd(kc)) if g.r.random() < 0.6 else MolT(key=cnd(kc), index=lit(int(kc.args[0]))) if kc.cls == "KeyLength" and kc.args[0] == int(kc.args[0]) else MapT(key=cnd(kc)))
+                pa.warm_spec = g.r.random() < 0.5       # the base path was serialised before its modifiers were derived from it
                 l.args[g.r.randrange(len(l.args))] = pa
             elif l.args and k < 0.22 and l.method in ("equal_to", "not_equal_to", "in_", "not_in", "eq") and "DataType" not in l.cls:
                 l.args[0] = copy.deepcopy(g.r.choice(PATHY)) if g.r.random() < 0.5 else pathy(g, 3)
